@@ -621,7 +621,16 @@ bool Config::lookupValue(const char *path, const char *&value) const
 
 bool Config::lookupValue(const char *path, std::string &value) const
 {
-  CONFIG_LOOKUP_NO_EXCEPTIONS(path, std::string, value);
+  try
+  {
+    Setting &s = lookup(path);
+    value = s.operator std::string();
+    return(true);
+  }
+  catch(const ConfigException &)
+  {
+    return(false);
+  }
 }
 
 // ---------------------------------------------------------------------------
@@ -1065,7 +1074,16 @@ bool Setting::lookupValue(const char *name, const char *&value) const
 
 bool Setting::lookupValue(const char *name, std::string &value) const
 {
-  SETTING_LOOKUP_NO_EXCEPTIONS(name, std::string, value);
+  try
+  {
+    Setting &s = operator[](name);
+    value = s.operator std::string();
+    return(true);
+  }
+  catch(const ConfigException &)
+  {
+    return(false);
+  }
 }
 
 // ---------------------------------------------------------------------------
